@@ -22,7 +22,7 @@ def truncate_words(val: str, num: int, end: str = "...") -> str:  # pragma: no c
     # Replaces consecutive whitespace with a single newline.
     words = val.split()
 
-    if len(words) < num:
+    if len(words) <= num:
         return " ".join(words)
 
     return " ".join(words[:num]) + end
